@@ -188,6 +188,7 @@ func monitor(rep *emit.Report, c *caseRun) {
 				if idx, err := w.Sch.ThresholdScheme.IndexOf(s.obs.SigBytes); err == nil && s.ev.Round <= next && lg.IsMember(idx) && idx != w.meIn(lg) {
 					rep.Fail("C05-valid-partial-of-live-member-refused", fmt.Sprintf("a valid partial for round %d of member index %d of the live group (epoch %d) was refused", s.ev.Round, idx, s.obs.LiveBefore), in)
 					if s.obs.LiveBefore > 0 {
+						rep.Fail("C03-partial-not-checked-against-the-live-polynomial", fmt.Sprintf("after the resharing a partial for round %d that is valid under the live group's public polynomial (member index %d) was refused: partials are not verified against the polynomial of the live group", s.ev.Round, idx), in)
 						rep.Fail("C07-valid-partial-of-new-group-member-refused", fmt.Sprintf("after the transition a valid partial for round %d of member index %d of the new group was refused", s.ev.Round, idx), in)
 					}
 				}
